@@ -2,6 +2,7 @@ import I18n.Lemmas.DateCal
 import I18n.Lemmas.DateTable
 /- Scanner lemmas for C18: the hand-written scanner `parseDate` accepts exactly the declarative grammar `Written`
    and returns the groups written in the string. -/
+set_option linter.unusedSimpArgs false
 namespace I18n.Date
 open I18n.Spec.Date I18n.Generated
 
